@@ -48,6 +48,7 @@ pL01 == <<FN("l"), IX(<<EI(0), EI(1)>>)>>
 pLs == <<FN("l"), IX(<<EA>>)>>
 pL0a == <<FN("l"), IX(<<EI(0)>>), FN("a")>>
 pL1b == <<FN("l"), IX(<<EI(1)>>), FN("b")>>
+pL1a == <<FN("l"), IX(<<EI(1)>>), FN("a")>>
 pL01a == <<FN("l"), IX(<<EI(0), EI(1)>>), FN("a")>>
 pLsa == <<FN("l"), IX(<<EA>>), FN("a")>>
 pLsb == <<FN("l"), IX(<<EA>>), FN("b")>>
@@ -55,10 +56,13 @@ pSS1 == <<FN("ss"), IX(<<EI(1)>>)>>
 pSSs == <<FN("ss"), IX(<<EA>>)>>
 pIM0 == <<FN("im"), KY(<<EI(0)>>)>>
 pIM1a == <<FN("im"), KY(<<EI(1)>>), FN("a")>>
+pIM0a == <<FN("im"), KY(<<EI(0)>>), FN("a")>>
 pIM01a == <<FN("im"), KY(<<EI(0), EI(1)>>), FN("a")>>
 pIMs == <<FN("im"), KY(<<EA>>)>>
 pIMsb == <<FN("im"), KY(<<EA>>), FN("b")>>
 pSMa == <<FN("sm"), KY(<<ES("a")>>)>>
+pSMaa == <<FN("sm"), KY(<<ES("a")>>), FN("a")>>
+pSMb_a == <<FN("sm"), KY(<<ES("b")>>), FN("a")>>
 pSMba == <<FN("sm"), KY(<<ES("b"), ES("a")>>), FN("a")>>
 pSMsa == <<FN("sm"), KY(<<EA>>), FN("a")>>
 pEM1 == <<FN("em"), KY(<<EI(1)>>)>>
@@ -94,7 +98,7 @@ eL0nope == <<FN("l"), IX(<<EI(0)>>), FN("nope")>>
 
 aValid == <<pX, pXid, pS, pSa, pSb, pL0, pL1, pL01, pLs, pL0a, pL1b, pL01a, pLsa, pLsb, pSS1, pSSs, pIM0, pIM1a,
             pIM01a, pIMs, pIMsb, pSMa, pSMba, pSMsa, pEM1, pBMsa, pBMs, pWva, pWli0, pWmii1, pY, pLL01, pLLs0,
-            pLL, pRoot, pAny, pSany>>
+            pLL, pRoot, pAny, pSany, pL1a, pIM0a, pSMaa, pSMb_a>>
 aErr == <<eNope, eId9, eXa, eX0, eS0, eLk, eLa, eIMs, eSM1, eBM1, eLempty, eIMempty, eLstr, eIMidx, eIMlit, eL0nope>>
 aFull == aValid \o aErr
 \* a core for the longer lists: complete / longer / grouped / '*' paths at a struct, a list, both map kinds
@@ -176,12 +180,13 @@ Emit ==
       aw == IF oa = "ok" THEN JoinWalksA(M, black) ELSE <<>>
       ball == IF built THEN AllCode(AllOf(trie)) ELSE 0
       bw == IF built THEN JoinWalksB(trie) ELSE <<>>
+      ap == IF oa = "ok" /\ ~black /\ M # {} THEN JoinPimsA(M) ELSE <<>>
+      bp == IF built THEN JoinPimsB(trie) ELSE <<>>
   IN PrintT("CASE " \o ToJson(
        [m |-> mode, h |-> hist, oa |-> oa, ek |-> ErrKindsA(ex),
         key |-> IF oa = "ok" THEN M ELSE {}, ck |-> IF oa = "?" THEN ConflictKinds(M) ELSE {},
-        aall |-> aall, aw |-> aw,
-        ap |-> IF oa = "ok" /\ ~black /\ M # {} THEN JoinPimsA(M) ELSE <<>>,
-        be |-> berr, ball |-> ball, bw |-> bw,
-        ref |-> RefinesWith(oa, aall, aw, ball, bw),
+        aall |-> aall, aw |-> aw, ap |-> ap,
+        be |-> berr, ball |-> ball, bw |-> bw, bp |-> bp,
+        ref |-> RefinesWith(oa, aall, aw, ap, ball, bw, bp),
         rt |-> RoundTripWith(bw)]))
 =============================================================================
